@@ -8,6 +8,7 @@ import TomlVerif.Driver.C04
 import TomlVerif.Driver.C18
 import TomlVerif.Driver.C20
 import TomlVerif.Driver.C03
+import TomlVerif.Driver.C16
 
 open TomlVerif
 
@@ -24,6 +25,7 @@ def dispatch (mode : String) (line : String) : String :=
   | "c18" => Driver.c18 line
   | "c20" => Driver.c20 line
   | "c03" => Driver.c03 line
+  | "c16" => Driver.c16 line
   | "c14" => Driver.c14 line
   | "cstsem" => Driver.cstSem line
   | _ => "bad-mode"
